@@ -79,12 +79,14 @@ CLASS_SPECS = [
     ("ImpulsiveDirection", lambda c: c("i")),
     ("Segment", lambda c: c("A", ["B"], 0)),
     ("TimedObject", lambda c: c()),
+    ("RomanNumeral", lambda c: c("C:V7")),
 ]
 NCLS = len(CLASS_SPECS)
 # classes that are interesting for include_subclasses (have subclasses / diamonds)
 PARENTS = [i for i, (n, _) in enumerate(CLASS_SPECS) if n in (
     "GenericNote", "Note", "Direction", "LoudnessDirection", "ConstantDirection", "DynamicDirection",
-    "TempoDirection", "DynamicLoudnessDirection", "ConstantTempoDirection", "Harmony", "TimedObject", "PedalDirection", "ImpulsiveDirection")]
+    "TempoDirection", "DynamicLoudnessDirection", "ConstantTempoDirection", "Harmony", "TimedObject", "PedalDirection", "ImpulsiveDirection",
+    "ArticulationDirection", "DynamicTempoDirection")]
 
 
 def _cls(i):
@@ -93,20 +95,38 @@ def _cls(i):
 
 
 # ------------------------------------------------------------------ strategy
+def _weighted(*pairs):
+    """one_of with integer weights. Hypothesis drops repeated identical branches of one_of,
+    so every repetition is wrapped into its own (distinct) mapped strategy."""
+    branches = []
+    for strat_, n in pairs:
+        branches.append(strat_)
+        for _ in range(n - 1):
+            branches.append(strat_.map(lambda x: x))
+    return st.one_of(*branches)
+
+
 def strat(tier):
     maxlen = 30 if tier == "quick" else 60
     t_small = st.integers(0, 24)
-    t = st.one_of(t_small, t_small, t_small, st.integers(0, 10 ** 6))
+    t = st.one_of(t_small, t_small.map(lambda x: x), t_small.map(lambda x: x), st.integers(0, 10 ** 6))
     ci = st.one_of(st.integers(0, NCLS - 1), st.sampled_from(PARENTS))
     ref = st.integers(0, 1000)
     q = st.integers(1, 12)
-    opt_t = st.one_of(st.none(), t_small, st.integers(0, 30))
-    add = st.tuples(st.just("add"), ci, t, st.integers(0, 12), st.sampled_from(["both", "both", "both", "start", "end"]))
+    # a time relative to an existing time point (first/last/interior, also the far ones): ["p", ref, delta]
+    t_rel = st.tuples(st.just("p"), ref, st.sampled_from([-1, 0, 0, 1]))
+    opt_t = st.one_of(st.none(), t_small, st.integers(0, 30), t_rel)
+    # type of the time arguments: python int / numpy.int64 / numpy.int32 (note_array_to_score passes array scalars)
+    tt = st.sampled_from([0, 0, 0, 1, 2])
+    add = st.tuples(st.just("add"), ci, t, st.integers(0, 12), st.sampled_from(["both", "both", "both", "start", "end"]), tt)
+    add_nothing = st.tuples(st.just("add"), ci, t, st.integers(0, 12), st.just("none"), tt)
+    readd = st.tuples(st.just("readd"), ref, t, st.integers(0, 12), st.sampled_from(["both", "both", "start", "end"]), tt)
     complete = st.tuples(st.just("complete"), ref, st.integers(0, 12))
     remove = st.tuples(st.just("remove"), ref, st.sampled_from(["both", "both", "start", "end"]))
-    setq = st.tuples(st.just("setq"), st.one_of(st.integers(0, 6), t_small), st.one_of(st.integers(1, 3), q))
-    point = st.tuples(st.just("point"), t)
-    none_w = 40 if tier == "quick" else 15  # cls=None visits every class of the interpreter: slow, kept rare
+    remove_dead = st.tuples(st.just("remove_dead"), ref, st.sampled_from(["both", "start", "end"]))
+    setq = st.tuples(st.just("setq"), st.one_of(st.integers(0, 6), t_small, t_rel), st.one_of(st.integers(1, 3), q))
+    point = st.tuples(st.just("point"), st.one_of(t, t_rel), tt)
+    none_w = 10 if tier == "quick" else 15  # cls=None visits every class of the interpreter: slow, kept rare
     iter_all = st.tuples(
         st.just("iter_all"),
         st.tuples(st.integers(0, none_w), ci).map(lambda x: None if x[0] == 7 else x[1]),
@@ -114,22 +134,41 @@ def strat(tier):
         opt_t,
         st.booleans(),
         st.sampled_from(["starting", "ending"]),
-        st.booleans(),
+        st.sampled_from([False, True, 2]),  # bounds as numbers / fresh TimePoints / the part's own TimePoints
     )
     iter_nb = st.tuples(st.sampled_from(["iter_prev", "iter_next"]), ref, ci, st.booleans(), st.booleans())
-    getp = st.tuples(st.just("get_point"), t_small)
+    getp = st.tuples(st.just("get_point"), st.one_of(t_small, t_rel, st.integers(0, 10 ** 6)))
     qd = st.tuples(st.just("qdur"), opt_t, opt_t)
     setq_entry = st.tuples(st.just("setq_entry"), ref, st.sampled_from(["prev", "prev", "same", "new"]), q)
-    op = st.one_of(add, add, add, complete, remove, remove, remove, remove, setq, setq, setq_entry, point, iter_all, iter_all, iter_nb, getp, qd)
+    op = _weighted((add, 3), (add_nothing, 1), (readd, 2), (complete, 1), (remove, 4), (remove_dead, 1), (setq, 2), (setq_entry, 1),
+                   (point, 1), (iter_all, 2), (iter_nb, 1), (getp, 1), (qd, 1))
     # a few additions first so that removals and queries have something to act on
-    ops = st.tuples(st.lists(add, min_size=0, max_size=5), st.lists(op, min_size=1, max_size=maxlen)).map(lambda ab: list(ab[0]) + list(ab[1]))
+    body = st.one_of(st.lists(op, min_size=1, max_size=8), st.lists(op, min_size=8, max_size=maxlen))
+    ops = st.tuples(st.lists(add, min_size=0, max_size=5), body).map(lambda ab: list(ab[0]) + list(ab[1]))
     return st.fixed_dictionaries({"q0": st.integers(1, 4), "ops": ops})
+
+
+def _tt(t, kind):
+    if t is None or not kind:
+        return t
+    return np.int64(t) if kind == 1 else np.int32(t)
+
+
+def _rt(model, x):
+    """Resolve a time of a spec: a number, None, or ["p", ref, delta] = time of an existing point + delta."""
+    if isinstance(x, (list, tuple)):
+        pts = sorted(model.points)
+        if not pts:
+            return 0
+        return max(0, pts[x[1] % len(pts)] + x[2])
+    return x
 
 
 # ------------------------------------------------------------------ reference model
 class Model(object):
     def __init__(self, q0):
         self.objs = []  # [obj, start or None, end or None] in creation order
+        self.dead = []  # objects that are (no longer / not yet) registered anywhere
         self.points = set()
         self.table = [(0, q0)]  # sorted explicit quarter entries
 
@@ -239,6 +278,10 @@ def check_invariants(part, model, o, where):
         exp_dur = (e - s) if (s is not None and e is not None) else None
         if ob.duration != exp_dur:
             o.add("object-duration-wrong", expected=exp_dur, got=ob.duration, where=where)
+    for ob in model.dead:
+        if getattr(ob, "start", None) is not None or getattr(ob, "end", None) is not None or ob.duration is not None:
+            o.add("unregistered-object-keeps-start-or-end", cls=type(ob).__name__, where=where)
+            break
     # quarter durations
     qd = part.quarter_durations()
     table = [(int(a), int(b)) for a, b in qd]
@@ -300,20 +343,37 @@ def oracle(spec):
         where = "step %d %s" % (step, kind)
         mutating = False
         try:
-            if kind == "add":
-                _, ci, s, dur, how = op
-                cls, mk = _cls(ci)
-                ob = mk(cls)
+            if kind in ("add", "readd"):
+                if kind == "add":
+                    _, ci, s, dur, how = op[:5]
+                    cls, mk = _cls(ci)
+                    ob = mk(cls)
+                    o.cls("class-RomanNumeral", cls is S.RomanNumeral)
+                else:
+                    # an object that was registered before and removed completely (or added with neither time) is added again
+                    if not model.dead:
+                        continue
+                    _, ref, s, dur, how = op[:5]
+                    ob = model.dead.pop(ref % len(model.dead))
+                    o.cls("re-add-of-removed-object")
+                tkind = op[5] if len(op) > 5 else 0
                 ss = s if how in ("both", "start") else None
                 ee = s + dur if how in ("both", "end") else None
-                call(part.add, ob, ss, ee)
-                model.objs.append([ob, ss, ee])
-                for t in (ss, ee):
-                    if t is not None:
-                        model.points.add(t)
                 mutating = True
+                if ss is None and ee is None:
+                    # documented: "If neither is provided this method does nothing"
+                    model.dead.append(ob)
+                    o.cls("add-with-neither-start-nor-end")
+                else:
+                    model.objs.append([ob, ss, ee])
+                    for t in (ss, ee):
+                        if t is not None:
+                            model.points.add(t)
+                call(part.add, ob, _tt(ss, tkind), _tt(ee, tkind))
                 o.cls("add-equal-start-end", ss is not None and ss == ee)
-                o.cls("add-half-registered", how != "both")
+                o.cls("add-half-registered", how in ("start", "end"))
+                o.cls("add-times-numpy-int64", tkind == 1 and how != "none")
+                o.cls("add-times-numpy-int32", tkind == 2 and how != "none")
             elif kind == "complete":
                 cand = [r for r in model.objs if (r[1] is None) != (r[2] is None)]
                 if not cand:
@@ -352,10 +412,20 @@ def oracle(spec):
                         o.cls("removal-empties-first-point", t == pts_before[0])
                         o.cls("removal-empties-last-point", t == pts_before[-1])
                         o.cls("removal-empties-interior-point", pts_before[0] < t < pts_before[-1])
+                o.cls("remove-both-of-object-starting-and-ending-at-one-point", which == "both" and len(touched) == 2 and touched[0] == touched[1])
                 if r[1] is None and r[2] is None:
                     model.objs.remove(r)
+                    model.dead.append(r[0])
+                o.cls("part-emptied-completely", not model.points)
                 mutating = True
                 call(part.remove, r[0], which)
+            elif kind == "remove_dead":
+                # removing an object that is not registered (any more) is a no-op (guard "and o.start" / "and o.end")
+                if not model.dead:
+                    continue
+                mutating = True
+                o.cls("remove-of-unregistered-object")
+                call(part.remove, model.dead[op[1] % len(model.dead)], op[2])
             elif kind in ("setq", "setq_entry"):
                 if kind == "setq_entry":
                     # aim at an existing table entry: previous segment's value / same value / new value
@@ -364,6 +434,9 @@ def oracle(spec):
                     q = model.table[idx - 1][1] if (op[2] == "prev" and idx > 0) else (model.table[idx][1] if op[2] == "same" else op[3])
                 else:
                     _, t, q = op
+                    o.cls("setq-relative-to-existing-point", isinstance(t, (list, tuple)) and bool(model.points))
+                    t = _rt(model, t)
+                    o.cls("setq-beyond-last-point", bool(model.points) and t > max(model.points))
                 before = model.canon(model.table)
                 cands = model.after_set(t, q)
                 o.cls("setq-at-existing-entry", any(tt == t for tt, _ in model.table))
@@ -383,8 +456,10 @@ def oracle(spec):
                 o.cls("setq-ambiguous-next-change", cands[0] != cands[1])
                 model.table = table
             elif kind == "point":
-                t = op[1]
-                tp = call(part.get_or_add_point, t)
+                t = _rt(model, op[1])
+                tkind = op[2] if len(op) > 2 else 0
+                o.cls("get-or-add-existing-point", t in model.points)
+                tp = call(part.get_or_add_point, _tt(t, tkind))
                 model.points.add(t)
                 mutating = True
                 if not isinstance(tp, S.TimePoint) or tp.t != t or tp is not part.get_point(t):
@@ -397,8 +472,23 @@ def oracle(spec):
                 cls = None if ci is None else _cls(ci)[0]
                 o.cls("query-cls-none", cls is None)
                 o.cls("query-include-subclasses-on-parent", incl and ci is not None and (ci % NCLS) in PARENTS)
-                a = S.TimePoint(start) if (as_tp and start is not None) else start
-                b = S.TimePoint(end) if (as_tp and end is not None) else end
+                start, end = _rt(model, start), _rt(model, end)
+                o.cls("query-bound-on-first-or-last-point", bool(model.points) and any(x in (min(model.points), max(model.points)) for x in (start, end)))
+                o.cls("query-start-after-end", start is not None and end is not None and start > end)
+                o.cls("query-mode-ending", mode == "ending")
+
+                def bound(x):
+                    if x is None or not as_tp:
+                        return x
+                    if as_tp == 2:
+                        # the way callers do it: iter_all(cls, measure.start, measure.end) with the part's own points
+                        live = [p for p in part._points if p.t == x]
+                        if live:
+                            o.cls("query-bound-is-own-timepoint")
+                            return live[0]
+                    return S.TimePoint(x)
+
+                a, b = bound(start), bound(end)
                 got = call(lambda: list(part.iter_all(cls, a, b, include_subclasses=incl, mode=mode)))
                 exp = _expected_query(model, cls, start, end, incl, mode)
                 tof = (lambda g: g.start.t if g.start is not None else -1) if mode == "starting" else (lambda g: g.end.t if g.end is not None else -1)
@@ -424,12 +514,15 @@ def oracle(spec):
                 _compare_sequence(o, kind.replace("_", "-"), got, exp, lambda g: g.start.t if g.start is not None else -1,
                                   decreasing=(kind == "iter_prev"), where=where, eq=eq, incl=incl, cls=cls.__name__, at=t0)
             elif kind == "get_point":
-                t = op[1]
+                t = _rt(model, op[1])
+                o.cls("get-point-existing", t in model.points)
+                o.cls("get-point-absent", t not in model.points)
                 tp = call(part.get_point, t)
                 if (tp is not None) != (t in model.points) or (tp is not None and tp.t != t):
                     o.add("get-point-wrong", t=t, got=None if tp is None else tp.t, where=where)
             elif kind == "qdur":
                 _, a, b = op
+                a, b = _rt(model, a), _rt(model, b)
                 got = call(part.quarter_durations, a, b)
                 exp = [(t, q) for (t, q) in model.table if (a is None or t >= a) and (b is None or t < b)]
                 if [(int(x), int(y)) for x, y in got] != exp:
@@ -447,6 +540,7 @@ def oracle(spec):
         if o.discs:
             break
     o.nontrivial = emptied and after_emptied
+    o.cls("history-longer-than-12-operations", len(spec["ops"]) > 12)
     o.cls("history-with-emptied-point-then-more", o.nontrivial)
     return o
 
@@ -457,7 +551,9 @@ SUBCHECKS = [
         oracle,
         strategy=strat,
         budget={"quick": 600, "thorough": 8000},
-        rule="generated histories of add/complete/remove/set_quarter_duration/get_or_add_point/queries over 55 timed-object classes, invariant after every step; non-trivial = a removal empties a time point and a later query or edit follows",
-        floors={"history-with-emptied-point-then-more": 0.05, "query-include-subclasses-on-parent": 0.03, "setq-at-existing-entry": 0.03},
+        rule="generated histories of add (by start, end, both, neither; python and numpy integer times)/complete/remove/re-add of removed objects/set_quarter_duration/get_or_add_point/queries (bounds as numbers, fresh or the part's own TimePoints) over 56 timed-object classes, invariant after every step; non-trivial = a removal empties a time point and a later query or edit follows",
+        floors={"history-with-emptied-point-then-more": 0.05, "query-include-subclasses-on-parent": 0.03, "setq-at-existing-entry": 0.03,
+                "re-add-of-removed-object": 0.05, "add-times-numpy-int32": 0.05, "add-times-numpy-int64": 0.05, "query-cls-none": 0.01,
+                "query-bound-is-own-timepoint": 0.03, "history-longer-than-12-operations": 0.2, "add-with-neither-start-nor-end": 0.03},
     ),
 ]
